@@ -122,10 +122,18 @@ def expected(data, CL):
     return data[:CL]
 
 
+METHODS = ['POST', 'GET', 'PUT', 'DELETE', 'HEAD']     # a body is a body whatever the verb (GET with a JSON payload is common)
+
+
+def method_for(n, M, wsgi_level=False):
+    m = METHODS[(abs(n) + M) % len(METHODS)]
+    return 'PATCH' if (wsgi_level and m == 'HEAD') else m          # (a HEAD answer carries no body to echo)
+
+
 def run_component(om, ex, n, CL, M):
     data = data_of(n)
     stream = ChoiceStream(ex, data, _src_prefix(), menu_cap=8 if n < 0 else None)
-    env = wsgi.environ('POST', '/', input=stream, clen=CL, ctype=MP_CTYPE if n < 0 else None)
+    env = wsgi.environ(method_for(n, M), '/', input=stream, clen=CL, ctype=MP_CTYPE if n < 0 else None)
     req = om.Request(env, config={'max_memfile_size': M})
     obs = {'hang': False, 'exc': None}
     try:
@@ -175,8 +183,8 @@ def run_wsgi(om, ex, n, CL, M, mode='echo'):
         seen['content'] = app.request.body.read()
         seen['again'] = app.request.body.read()
         return seen['content']
-    app.route('/p', 'POST', h)
-    env = wsgi.environ('POST', '/p', input=stream, clen=CL, ctype=MP_CTYPE if n < 0 else None)
+    app.route('/p', ['POST', 'GET', 'PUT', 'DELETE', 'PATCH'], h)
+    env = wsgi.environ(method_for(n, M, True), '/p', input=stream, clen=CL, ctype=MP_CTYPE if n < 0 else None)
     obs = {'hang': False, 'exc': None}
     try:
         c = wsgi.call(app, env)
@@ -329,5 +337,6 @@ def replay(case):
     answers = [k for _, k in obs['calls']]
     how = {'wsgi-copy': ' (handler reads request.copy().body)', 'wsgi-lazy': ' (handler returns a generator that reads request.body after its first chunk)',
            'wsgi-ignore': ' (handler does not look at the body)', 'wsgi-peekcopy': ' (handler reads 1 byte of request.body, then request.copy().body)'}.get(case['kind'], '')
+    how += f' [{method_for(n, M, case["kind"] != "comp")} request]'
     return (f'{case["kind"]}{how}: data={data_of(n)!r} Content-Length={CL} max_memfile_size={M}; stream answered the '
             f'reads {[r for r, _ in obs["calls"]]} with {answers} bytes: {v[1]}')
